@@ -957,7 +957,7 @@ HARNESSES += [
         _call('encode.field_table(fresh A)', lambda p: _try(
             lambda: p.encode.field_table(_FRESH_A).hex()[-64:])),
         _call('encode.field_table(fresh B)', lambda p: _try(
-            lambda: p.encode.field_table(_FRESH_B).hex()[-64:]))], 1, 1,
+            lambda: p.encode.field_table(_FRESH_B).hex()[-64:]))], None, 1,
      {'cold': False}),
 ]
 def _nested(depth, leaf):
@@ -983,7 +983,7 @@ HARNESSES += [
         _call('encode.field_table(deep A)', lambda p: _try(
             lambda: p.encode.field_table(_DEEP_OBJ_A).hex()[-40:])),
         _call('encode.field_table(deep B)', lambda p: _try(
-            lambda: p.encode.field_table(_DEEP_OBJ_B).hex()[-40:]))], 1, 1,
+            lambda: p.encode.field_table(_DEEP_OBJ_B).hex()[-40:]))], None, 1,
      {'cold': False}),
 ]
 _BIG_A, _BIG_B = _fresh_table('c', 300), _fresh_table('d', 300)
